@@ -76,6 +76,11 @@ theorem cross_rot (M : Motion) (h : M.R.IsRot) (a b : V3) : cross (rot M a) (rot
   rw [cross_mulVec, h1, h2, h3]
   rfl
 
+theorem quatMat_isRot (w x y z : Rat) (h : w * w + x * x + y * y + z * z ≠ 0) : (quatMat w x y z).IsRot := by
+  simp only [Mat3.IsRot, quatMat, Mat3.c1, Mat3.c2, Mat3.c3, Mat3.det, V3.dot, V3.cross]
+  generalize hn : w * w + x * x + y * y + z * z = n at h ⊢
+  refine ⟨?_, ?_, ?_, ?_, ?_, ?_, ?_⟩ <;> field_simp <;> subst hn <;> ring
+
 /-! ### sums and means -/
 
 theorem vsum_map_rot (M : Motion) (l : List V3) : vsum (l.map (rot M)) = rot M (vsum l) := by
@@ -192,6 +197,425 @@ theorem pnRaw_act (sq : Rat → Rat) (M : Motion) (hM : M.R.IsRot) (pts : List V
 theorem planeNormal_act (sq : Rat → Rat) (M : Motion) (hM : M.R.IsRot) (pts : List V3) (h : pts ≠ []) :
     planeNormal sq (pts.map (act M)) = rot M (planeNormal sq pts) := by
   simp only [planeNormal, pnRaw_act sq M hM pts h, normalize_rot sq M hM]
+
+
+/-! ### 1-D -/
+
+theorem cellCen1_move (M : Motion) (c : Inc1 × Inc1) :
+    cellCen1 (c.1.move M, c.2.move M) = act M (cellCen1 c) := by
+  simp only [cellCen1, Inc1.move, midpoint_act]
+
+theorem cellVol1_move (sq : Rat → Rat) (M : Motion) (hM : M.R.IsRot) (c : Inc1 × Inc1) :
+    cellVol1 sq (c.1.move M, c.2.move M) = cellVol1 sq c := by
+  simp only [cellVol1, Inc1.move, act_sub_act, nrm_rot sq M hM]
+
+/-- motion of a listed incidence (with the centre of its cell) -/
+def incMove1 (M : Motion) (p : Inc1 × V3) : Inc1 × V3 := (p.1.move M, act M p.2)
+
+theorem incs1_move (M : Motion) (cells : List (Inc1 × Inc1)) :
+    incs1 (cells.map fun c => (c.1.move M, c.2.move M)) = (incs1 cells).map (incMove1 M) := by
+  induction cells with
+  | nil => rfl
+  | cons c l ih => simp only [List.map_cons, incs1, ih, cellCen1_move, incMove1]
+
+theorem firstInc1_move (M : Motion) (f : Nat) (l : List (Inc1 × V3)) :
+    firstInc1 f (l.map (incMove1 M)) = (firstInc1 f l).map (incMove1 M) := by
+  induction l with
+  | nil => rfl
+  | cons e l ih =>
+    simp only [List.map_cons, firstInc1]
+    have hface : (incMove1 M e).1.face = e.1.face := rfl
+    rw [hface]
+    by_cases hf : e.1.face = f
+    · rw [if_pos hf, if_pos hf]; rfl
+    · rw [if_neg hf, if_neg hf, ih]
+
+theorem flip1_move (sq : Rat → Rat) (M : Motion) (hM : M.R.IsRot) (t : V3) (sgn : Int) (fc cc : V3) :
+    flip1 sq (rot M t) sgn (act M fc) (act M cc) = flip1 sq t sgn fc cc := by
+  simp only [flip1, act_sub_act, nrm_rot sq M hM, ← rot_smul, ← rot_add]
+
+theorem faceNormal1_move (sq : Rat → Rat) (M : Motion) (hM : M.R.IsRot) (t : V3) (incs : List (Inc1 × V3)) (f : Nat) :
+    faceNormal1 sq (rot M t) (incs.map (incMove1 M)) f = rot M (faceNormal1 sq t incs f) := by
+  simp only [faceNormal1, firstInc1_move]
+  cases firstInc1 f incs with
+  | none => rfl
+  | some e =>
+    simp only [Option.map_some, incMove1, Inc1.move, flip1_move sq M hM]
+    split
+    · rw [rot_neg]
+    · rfl
+
+theorem geom1_move (sq : Rat → Rat) (M : Motion) (hM : M.R.IsRot) (g : Grid1) (h : g.nodes ≠ []) :
+    geom1 sq (g.move M) = (geom1 sq g).move M := by
+  simp only [geom1, Grid1.move, Out.move, tangent_act sq M hM g.nodes h, incs1_move, List.length_map,
+    List.map_map, Function.comp_def, cellVol1_move sq M hM, cellCen1_move]
+  rw [show faceNormal1 sq (rot M (tangent sq g.nodes)) (List.map (incMove1 M) (incs1 g.cells)) =
+        fun x => rot M (faceNormal1 sq (tangent sq g.nodes) (incs1 g.cells) x) from
+      funext (faceNormal1_move sq M hM _ _)]
+
+/-! ### 2-D: incidence level -/
+
+theorem tang_move (M : Motion) (e : Inc2) : tang (e.move M) = rot M (tang e) := by
+  simp only [tang, Inc2.move, act_sub_act]
+
+theorem fcen_move (M : Motion) (e : Inc2) : fcen (e.move M) = act M (fcen e) := by
+  simp only [fcen, Inc2.move, midpoint_act]
+
+theorem tcc_eq_mean (c : List Inc2) : tcc c = mean (c.map fcen) := by
+  simp only [tcc, mean, List.length_map]
+
+theorem tcc_move (M : Motion) (c : List Inc2) (h : c ≠ []) : tcc (c.map (Inc2.move M)) = act M (tcc c) := by
+  rw [tcc_eq_mean, tcc_eq_mean, List.map_map]
+  simp only [Function.comp_def, fcen_move]
+  exact mean_map_act M fcen c h
+
+theorem height_move (M : Motion) (t : V3) (e : Inc2) : height (act M t) (e.move M) = rot M (height t e) := by
+  simp only [height, fcen_move, act_sub_act]
+
+theorem sgn_move (M : Motion) (e : Inc2) : (e.move M).sgn = e.sgn := rfl
+theorem face_move (M : Motion) (e : Inc2) : (e.move M).face = e.face := rfl
+theorem n0_move (M : Motion) (e : Inc2) : (e.move M).n0 = e.n0 := rfl
+theorem n1_move (M : Motion) (e : Inc2) : (e.move M).n1 = e.n1 := rfl
+
+theorem ssn_move (M : Motion) (hM : M.R.IsRot) (t : V3) (e : Inc2) :
+    ssn (act M t) (e.move M) = rot M (ssn t e) := by
+  simp only [ssn, height_move, tang_move, sgn_move, ← rot_smul, cross_rot M hM]
+
+theorem subCentroid_move (M : Motion) (t : V3) (e : Inc2) :
+    subCentroid (act M t) (e.move M) = act M (subCentroid t e) := by
+  simp only [subCentroid, fcen_move, third_act]
+
+theorem nodeBalance_move (M : Motion) (c : List Inc2) (n : Nat) :
+    nodeBalance (c.map (Inc2.move M)) n = nodeBalance c n := by
+  induction c with
+  | nil => rfl
+  | cons e l ih => simp only [List.map_cons, nodeBalance, ih]; rfl
+
+theorem cellClosed_move (M : Motion) (c : List Inc2) : cellClosed (c.map (Inc2.move M)) = cellClosed c := by
+  simp only [cellClosed, List.all_map, Function.comp_def, nodeBalance_move]
+  rfl
+
+theorem check1_move (M : Motion) (g : Grid2) : check1 (g.move M) = check1 g := by
+  simp only [check1, Grid2.move, List.all_map, Function.comp_def, cellClosed_move]
+
+theorem cellNsum_move (M : Motion) (hM : M.R.IsRot) (c : List Inc2) (h : c ≠ []) :
+    cellNsum (c.map (Inc2.move M)) = rot M (cellNsum c) := by
+  simp only [cellNsum, tcc_move M c h, List.map_map, Function.comp_def, ssn_move M hM]
+  exact vsum_map_rot' M _ c
+
+theorem nsum_move (M : Motion) (hM : M.R.IsRot) (g : Grid2) (hc : ∀ c ∈ g.cells, c ≠ []) :
+    nsum (g.move M) = rot M (nsum g) := by
+  simp only [nsum, Grid2.move, List.map_map, Function.comp_def]
+  rw [List.map_congr_left (g := fun c => rot M (cellNsum c)) (fun c hmem => cellNsum_move M hM c (hc c hmem))]
+  exact vsum_map_rot' M _ _
+
+theorem faceArea2_move (sq : Rat → Rat) (M : Motion) (hM : M.R.IsRot) (f : V3 × V3) :
+    faceArea2 sq (act M f.1, act M f.2) = faceArea2 sq f := by
+  simp only [faceArea2, act_sub_act, nrm_rot sq M hM]
+
+theorem meanArea_move (sq : Rat → Rat) (M : Motion) (hM : M.R.IsRot) (g : Grid2) :
+    meanArea sq (g.move M) = meanArea sq g := by
+  simp only [meanArea, Grid2.move, List.map_map, Function.comp_def, faceArea2_move sq M hM, List.length_map]
+
+theorem check2Fails_move (sq : Rat → Rat) (M : Motion) (hM : M.R.IsRot) (g : Grid2) (hc : ∀ c ∈ g.cells, c ≠ []) :
+    check2Fails sq (g.move M) = check2Fails sq g := by
+  simp only [check2Fails, nsum_move M hM g hc, nrm_rot sq M hM, meanArea_move sq M hM]
+
+theorem normalOriented_move (sq : Rat → Rat) (M : Motion) (hM : M.R.IsRot) (g : Grid2) (hc : ∀ c ∈ g.cells, c ≠ []) :
+    normalOriented sq (g.move M) = normalOriented sq g := by
+  simp only [normalOriented, check1_move, check2Fails_move sq M hM g hc]
+
+theorem nhat_move (sq : Rat → Rat) (M : Motion) (hM : M.R.IsRot) (g : Grid2) (hn : g.nodes ≠ [])
+    (hc : ∀ c ∈ g.cells, c ≠ []) : nhat sq (g.move M) = rot M (nhat sq g) := by
+  simp only [nhat, normalOriented_move sq M hM g hc, nsum_move M hM g hc, normalize_rot sq M hM]
+  split
+  · rfl
+  · exact planeNormal_act sq M hM g.nodes hn
+
+
+/-! ### 2-D: cell and grid level -/
+
+theorem all_congr_mem {α : Type} (l : List α) (p q : α → Bool) (h : ∀ a ∈ l, p a = q a) : l.all p = l.all q := by
+  induction l with
+  | nil => rfl
+  | cons a l ih =>
+    simp only [List.all_cons, h a List.mem_cons_self, ih (fun b hb => h b (List.mem_cons_of_mem _ hb))]
+
+theorem ssvO_move (M : Motion) (hM : M.R.IsRot) (nh t : V3) (e : Inc2) :
+    ssvO (rot M nh) (act M t) (e.move M) = ssvO nh t e := by
+  simp only [ssvO, ssn_move M hM, dot_rot M hM]
+
+theorem volO_move (M : Motion) (hM : M.R.IsRot) (nh : V3) (c : List Inc2) (h : c ≠ []) :
+    volO (rot M nh) (c.map (Inc2.move M)) = volO nh c := by
+  simp only [volO, tcc_move M c h, List.map_map, Function.comp_def, ssvO_move M hM]
+
+theorem volOriented_move (M : Motion) (hM : M.R.IsRot) (nh : V3) (g : Grid2) (hc : ∀ c ∈ g.cells, c ≠ []) :
+    volOriented (rot M nh) (g.move M) = volOriented nh g := by
+  simp only [volOriented, check1_move]
+  congr 1
+  simp only [Grid2.move, List.all_map, Function.comp_def]
+  exact all_congr_mem _ _ _ (fun c hmem => by rw [volO_move M hM nh c (hc c hmem)])
+
+theorem ssv_move (sq : Rat → Rat) (M : Motion) (hM : M.R.IsRot) (vo : Bool) (nh t : V3) (e : Inc2) :
+    ssv sq vo (rot M nh) (act M t) (e.move M) = ssv sq vo nh t e := by
+  simp only [ssv, ssvO_move M hM, ssn_move M hM, nrm_rot sq M hM]
+
+theorem vol2_move (sq : Rat → Rat) (M : Motion) (hM : M.R.IsRot) (vo : Bool) (nh : V3) (c : List Inc2) (h : c ≠ []) :
+    vol2 sq vo (rot M nh) (c.map (Inc2.move M)) = vol2 sq vo nh c := by
+  simp only [vol2, tcc_move M c h, List.map_map, Function.comp_def, ssv_move sq M hM]
+
+theorem cen2_move (sq : Rat → Rat) (M : Motion) (hM : M.R.IsRot) (vo : Bool) (nh : V3) (c : List Inc2) (h : c ≠ [])
+    (hV : vol2 sq vo nh c ≠ 0) :
+    cen2 sq vo (rot M nh) (c.map (Inc2.move M)) = act M (cen2 sq vo nh c) := by
+  unfold cen2
+  rw [vol2_move sq M hM vo nh c h]
+  simp only [tcc_move M c h, List.map_map, Function.comp_def, wcen, ssv_move sq M hM, subCentroid_move]
+  rw [wsum_act M (fun e => ssv sq vo nh (tcc c) e) (fun e => subCentroid (tcc c) e) c]
+  exact smul_inv_affine M (vol2 sq vo nh c) hV _
+
+theorem flipInc_move (M : Motion) (hM : M.R.IsRot) (nh t : V3) (e : Inc2) :
+    flipInc (rot M nh) (act M t) (e.move M) = flipInc nh t e := by
+  simp only [flipInc, height_move, tang_move, sgn_move, cross_rot M hM, dot_rot M hM]
+
+theorem cellFlips_move (M : Motion) (hM : M.R.IsRot) (nh : V3) (c : List Inc2) (h : c ≠ []) :
+    cellFlips (rot M nh) (c.map (Inc2.move M)) = cellFlips nh c := by
+  simp only [cellFlips, tcc_move M c h, List.filter_map, List.map_map, Function.comp_def, flipInc_move M hM, face_move]
+
+theorem flips_move (M : Motion) (hM : M.R.IsRot) (nh : V3) (cells : List (List Inc2)) (hc : ∀ c ∈ cells, c ≠ []) :
+    flips (rot M nh) (cells.map fun c => c.map (Inc2.move M)) = flips nh cells := by
+  induction cells with
+  | nil => rfl
+  | cons c l ih =>
+    simp only [List.map_cons, flips, cellFlips_move M hM nh c (hc c List.mem_cons_self),
+      ih (fun b hb => hc b (List.mem_cons_of_mem _ hb))]
+
+theorem faceNormal2_move (M : Motion) (hM : M.R.IsRot) (nh : V3) (fl : List Nat) (p : Nat × (V3 × V3)) :
+    faceNormal2 (rot M nh) fl (p.1, (act M p.2.1, act M p.2.2)) = rot M (faceNormal2 nh fl p) := by
+  simp only [faceNormal2, act_sub_act, cross_rot M hM]
+  split
+  · rw [rot_neg]
+  · rfl
+
+theorem faceCen2_move (M : Motion) (f : V3 × V3) : faceCen2 (act M f.1, act M f.2) = act M (faceCen2 f) := by
+  simp only [faceCen2, midpoint_act]
+
+theorem zipIdx_map {α β : Type} (f : α → β) (l : List α) : zipIdx (l.map f) = (zipIdx l).map (Prod.map id f) := by
+  simp only [zipIdx, List.length_map, List.zip_map_right]
+
+theorem geom2_move (sq : Rat → Rat) (M : Motion) (hM : M.R.IsRot) (g : Grid2) (hn : g.nodes ≠ [])
+    (hc : ∀ c ∈ g.cells, c ≠ []) (hv : ∀ v ∈ (geom2 sq g).cv, v ≠ 0) :
+    geom2 sq (g.move M) = (geom2 sq g).move M := by
+  have hnh := nhat_move sq M hM g hn hc
+  have hvo := volOriented_move M hM (nhat sq g) g hc
+  have hfl : flips (rot M (nhat sq g)) (g.move M).cells = flips (nhat sq g) g.cells := flips_move M hM _ g.cells hc
+  simp only [geom2, Out.move, hnh, hvo, hfl]
+  have hcells : (g.move M).cells = g.cells.map (fun c => c.map (Inc2.move M)) := rfl
+  have hfaces : (g.move M).faces = g.faces.map (fun f => (act M f.1, act M f.2)) := rfl
+  rw [hcells, hfaces]
+  congr 1
+  · simp only [List.map_map, Function.comp_def, faceArea2_move sq M hM]
+  · simp only [List.map_map, Function.comp_def, faceCen2_move]
+  · rw [zipIdx_map, List.map_map, List.map_map]
+    apply List.map_congr_left
+    intro p _
+    exact faceNormal2_move M hM _ _ p
+  · rw [List.map_map]
+    apply List.map_congr_left
+    intro c hmem
+    exact vol2_move sq M hM _ _ c (hc c hmem)
+  · rw [List.map_map, List.map_map]
+    apply List.map_congr_left
+    intro c hmem
+    refine cen2_move sq M hM _ _ c (hc c hmem) (hv _ ?_)
+    simp only [geom2]
+    exact List.mem_map_of_mem hmem
+
+/-! ### a polygon given by its vertex loop -/
+
+theorem polyEdges_map {f : V3 → V3} (vs : List V3) : polyEdges (vs.map f) = (polyEdges vs).map (Prod.map f f) := by
+  cases vs with
+  | nil => rfl
+  | cons p l =>
+    simp only [List.map_cons, polyEdges]
+    rw [show List.map f l ++ [f p] = (l ++ [p]).map f by simp, ← List.map_cons, List.zip_map]
+
+theorem polyIncs_map (M : Motion) (vs : List V3) : polyIncs (vs.map (act M)) = (polyIncs vs).map (Inc2.move M) := by
+  simp only [polyIncs, polyEdges_map, zipIdx_map, List.map_map, List.length_map]
+  apply List.map_congr_left
+  intro p _
+  rfl
+
+theorem polyGrid_move (M : Motion) (vs : List V3) : polyGrid (vs.map (act M)) = (polyGrid vs).move M := by
+  simp only [polyGrid, Grid2.move, polyEdges_map, polyIncs_map, List.map_cons, List.map_nil]
+  rfl
+
+theorem polyIncs_ne_nil (vs : List V3) (h : vs ≠ []) : polyIncs vs ≠ [] := by
+  cases vs with
+  | nil => exact absurd rfl h
+  | cons p l =>
+    intro hnil
+    have := congrArg List.length hnil
+    simp [polyIncs, polyEdges, zipIdx] at this
+
+
+/-! ### 3-D: faces -/
+
+theorem nextOf_map {f : V3 → V3} (ps : List V3) : nextOf (ps.map f) = (nextOf ps).map f := by
+  cases ps with
+  | nil => rfl
+  | cons p l => simp only [List.map_cons, nextOf, List.map_append, List.map_nil]
+
+theorem loopEdges_map {f : V3 → V3} (ps : List V3) : loopEdges (ps.map f) = (loopEdges ps).map (Prod.map f f) := by
+  simp only [loopEdges, nextOf_map, List.zip_map]
+
+theorem subNormal_move (M : Motion) (hM : M.R.IsRot) (c : V3) (e : V3 × V3) :
+    subNormal (act M c) (Prod.map (act M) (act M) e) = rot M (subNormal c e) := by
+  simp only [subNormal, Prod.map_fst, Prod.map_snd, act_sub_act, cross_rot M hM, rot_smul]
+
+theorem subCentroid3_move (M : Motion) (c : V3) (e : V3 × V3) :
+    subCentroid3 (act M c) (Prod.map (act M) (act M) e) = act M (subCentroid3 c e) := by
+  simp only [subCentroid3, Prod.map_fst, Prod.map_snd, third3_act]
+
+theorem subNormals_move (M : Motion) (hM : M.R.IsRot) (ps : List V3) (h : ps ≠ []) :
+    subNormals (ps.map (act M)) = (subNormals ps).map (rot M) := by
+  simp only [subNormals, mean_act M ps h, loopEdges_map, List.map_map, Function.comp_def, subNormal_move M hM]
+
+theorem faceNormal3_move (M : Motion) (hM : M.R.IsRot) (ps : List V3) (h : ps ≠ []) :
+    faceNormal3 (ps.map (act M)) = rot M (faceNormal3 ps) := by
+  simp only [faceNormal3, subNormals_move M hM ps h, vsum_map_rot]
+
+theorem subW_move (sq : Rat → Rat) (M : Motion) (hM : M.R.IsRot) (c : V3) (e : V3 × V3) :
+    subW sq (act M c) (Prod.map (act M) (act M) e) = ((subW sq c e).1, act M (subW sq c e).2) := by
+  simp only [subW, subNormal_move M hM, nrm_rot sq M hM, subCentroid3_move]
+
+theorem subTris_move (sq : Rat → Rat) (M : Motion) (hM : M.R.IsRot) (ps : List V3) (h : ps ≠ []) :
+    subTris sq (ps.map (act M)) = (subTris sq ps).map (fun p => (p.1, act M p.2)) := by
+  simp only [subTris, mean_act M ps h, loopEdges_map, List.map_map, Function.comp_def, subW_move sq M hM]
+
+theorem faceArea3_move (sq : Rat → Rat) (M : Motion) (hM : M.R.IsRot) (ps : List V3) (h : ps ≠ []) :
+    faceArea3 sq (ps.map (act M)) = faceArea3 sq ps := by
+  simp only [faceArea3, subTris_move sq M hM ps h, List.map_map, Function.comp_def]
+
+theorem faceCentre3_move (sq : Rat → Rat) (M : Motion) (hM : M.R.IsRot) (ps : List V3) (h : ps ≠ [])
+    (hA : faceArea3 sq ps ≠ 0) : faceCentre3 sq (ps.map (act M)) = act M (faceCentre3 sq ps) := by
+  simp only [faceCentre3, subTris_move sq M hM ps h]
+  exact wavg_act M _ hA
+
+/-! ### 3-D: cells -/
+
+/-- motion of a sub-tetrahedron base -/
+def Edge3.move (M : Motion) (e : Edge3) : Edge3 := ⟨act M e.fc, act M e.sc, rot M e.outer⟩
+
+theorem mkEdge_move (M : Motion) (hM : M.R.IsRot) (fc fnm c : V3) (o : Int) (e : V3 × V3) :
+    mkEdge (act M fc) (rot M fnm) (act M c) o (Prod.map (act M) (act M) e) = (mkEdge fc fnm c o e).move M := by
+  simp only [mkEdge, Edge3.move, subCentroid3_move, subNormal_move M hM, dot_rot M hM, rot_smul]
+
+theorem faceEdges_move (sq : Rat → Rat) (M : Motion) (hM : M.R.IsRot) (f : Int × List V3) (h : f.2 ≠ [])
+    (hA : faceArea3 sq f.2 ≠ 0) : faceEdges sq (face3Move M f) = (faceEdges sq f).map (Edge3.move M) := by
+  simp only [faceEdges, face3Move, loopEdges_map, List.map_map, Function.comp_def,
+    faceCentre3_move sq M hM f.2 h hA, faceNormal3_move M hM f.2 h, mean_act M f.2 h, mkEdge_move M hM]
+
+theorem cellEdges_move (sq : Rat → Rat) (M : Motion) (hM : M.R.IsRot) (c : Cell3)
+    (hf : ∀ f ∈ c, f.2 ≠ [] ∧ faceArea3 sq f.2 ≠ 0) :
+    cellEdges sq (Cell3.move M c) = (cellEdges sq c).map (Edge3.move M) := by
+  induction c with
+  | nil => rfl
+  | cons f l ih =>
+    have h1 := hf f List.mem_cons_self
+    simp only [Cell3.move, List.map_cons, cellEdges, List.map_append, faceEdges_move sq M hM f h1.1 h1.2]
+    congr 1
+    exact ih (fun b hb => hf b (List.mem_cons_of_mem _ hb))
+
+theorem tcc3_eq_mean (es : List Edge3) : tcc3 es = mean (es.map (·.fc)) := by
+  simp only [tcc3, mean, List.length_map]
+
+theorem tcc3_move (M : Motion) (es : List Edge3) (h : es ≠ []) : tcc3 (es.map (Edge3.move M)) = act M (tcc3 es) := by
+  rw [tcc3_eq_mean, tcc3_eq_mean, List.map_map]
+  rw [show List.map ((fun x => x.fc) ∘ Edge3.move M) es = es.map (fun e => act M e.fc) from
+    List.map_congr_left (fun e _ => rfl)]
+  exact mean_map_act M (fun e : Edge3 => e.fc) es h
+
+theorem dist3_move (M : Motion) (t : V3) (e : Edge3) : dist3 (act M t) (e.move M) = rot M (dist3 t e) := by
+  simp only [dist3, Edge3.move, act_sub_act]
+
+theorem outer_move (M : Motion) (e : Edge3) : (e.move M).outer = rot M e.outer := rfl
+
+theorem tetVol_move (M : Motion) (hM : M.R.IsRot) (t : V3) (e : Edge3) :
+    tetVol (act M t) (e.move M) = tetVol t e := by
+  simp only [tetVol, dist3_move, outer_move, dot_rot M hM]
+
+theorem vol3_move (M : Motion) (hM : M.R.IsRot) (es : List Edge3) (h : es ≠ []) :
+    vol3 (es.map (Edge3.move M)) = vol3 es := by
+  simp only [vol3, tcc3_move M es h, List.map_map, Function.comp_def, tetVol_move M hM]
+
+theorem wtet_move (M : Motion) (hM : M.R.IsRot) (t : V3) (e : Edge3) :
+    wtet (act M t) (e.move M) = rot M (wtet t e) := by
+  simp only [wtet, tetVol_move M hM, dist3_move, rot_smul]
+
+theorem cen3_move (M : Motion) (hM : M.R.IsRot) (es : List Edge3) (h : es ≠ []) :
+    cen3 (es.map (Edge3.move M)) = act M (cen3 es) := by
+  unfold cen3
+  rw [vol3_move M hM es h, tcc3_move M es h]
+  simp only [List.map_map, Function.comp_def, wtet_move M hM]
+  rw [vsum_map_rot' M (wtet (tcc3 es)) es, ← rot_smul, act_add_rot]
+
+theorem negTet_move (M : Motion) (hM : M.R.IsRot) (es : List Edge3) (h : es ≠ []) :
+    negTet (es.map (Edge3.move M)) = negTet es := by
+  simp only [negTet, tcc3_move M es h, List.any_map, Function.comp_def, tetBad, tetVol_move M hM]
+  rfl
+
+theorem loopEdges_ne_nil (ps : List V3) (h : ps ≠ []) : loopEdges ps ≠ [] := by
+  cases ps with
+  | nil => exact absurd rfl h
+  | cons p l =>
+    intro hnil
+    have := congrArg List.length hnil
+    simp [loopEdges, nextOf] at this
+
+theorem cellEdges_ne_nil (sq : Rat → Rat) (c : Cell3) (hc : c ≠ []) (hf : ∀ f ∈ c, f.2 ≠ []) : cellEdges sq c ≠ [] := by
+  cases c with
+  | nil => exact absurd rfl hc
+  | cons f l =>
+    intro hnil
+    simp only [cellEdges, List.append_eq_nil_iff, faceEdges, List.map_eq_nil_iff] at hnil
+    exact loopEdges_ne_nil f.2 (hf f List.mem_cons_self) hnil.1
+
+theorem any_congr_mem {α : Type} (l : List α) (p q : α → Bool) (h : ∀ a ∈ l, p a = q a) : l.any p = l.any q := by
+  induction l with
+  | nil => rfl
+  | cons a l ih =>
+    simp only [List.any_cons, h a List.mem_cons_self, ih (fun b hb => h b (List.mem_cons_of_mem _ hb))]
+
+theorem cellVol3_move (sq : Rat → Rat) (M : Motion) (hM : M.R.IsRot) (c : Cell3) (hc : c ≠ [])
+    (hf : ∀ f ∈ c, f.2 ≠ [] ∧ faceArea3 sq f.2 ≠ 0) : cellVol3 sq (Cell3.move M c) = cellVol3 sq c := by
+  simp only [cellVol3, cellEdges_move sq M hM c hf]
+  exact vol3_move M hM _ (cellEdges_ne_nil sq c hc (fun f hm => (hf f hm).1))
+
+theorem cellCen3_move (sq : Rat → Rat) (M : Motion) (hM : M.R.IsRot) (c : Cell3) (hc : c ≠ [])
+    (hf : ∀ f ∈ c, f.2 ≠ [] ∧ faceArea3 sq f.2 ≠ 0) : cellCen3 sq (Cell3.move M c) = act M (cellCen3 sq c) := by
+  simp only [cellCen3, cellEdges_move sq M hM c hf]
+  exact cen3_move M hM _ (cellEdges_ne_nil sq c hc (fun f hm => (hf f hm).1))
+
+theorem geom3_move (sq : Rat → Rat) (M : Motion) (hM : M.R.IsRot) (g : Grid3)
+    (hF : ∀ ps ∈ g.faces, ps ≠ [] ∧ faceArea3 sq ps ≠ 0)
+    (hC : ∀ c ∈ g.cells, c ≠ [] ∧ ∀ f ∈ c, f.2 ≠ [] ∧ faceArea3 sq f.2 ≠ 0) :
+    geom3 sq (g.move M) = (geom3 sq g).move M := by
+  simp only [geom3, Grid3.move, Out.move, List.map_map]
+  congr 1
+  · exact List.map_congr_left (fun ps hm => faceArea3_move sq M hM ps (hF ps hm).1)
+  · exact List.map_congr_left (fun ps hm => faceCentre3_move sq M hM ps (hF ps hm).1 (hF ps hm).2)
+  · exact List.map_congr_left (fun ps hm => faceNormal3_move M hM ps (hF ps hm).1)
+  · exact List.map_congr_left (fun c hm => cellVol3_move sq M hM c (hC c hm).1 (hC c hm).2)
+  · exact List.map_congr_left (fun c hm => cellCen3_move sq M hM c (hC c hm).1 (hC c hm).2)
+
+theorem geom3Err_move (sq : Rat → Rat) (M : Motion) (hM : M.R.IsRot) (g : Grid3)
+    (hC : ∀ c ∈ g.cells, c ≠ [] ∧ ∀ f ∈ c, f.2 ≠ [] ∧ faceArea3 sq f.2 ≠ 0) :
+    geom3Err sq (g.move M) = geom3Err sq g := by
+  simp only [geom3Err, Grid3.move, List.any_map, Function.comp_def]
+  apply any_congr_mem
+  intro c hm
+  rw [cellEdges_move sq M hM c (hC c hm).2]
+  exact negTet_move M hM _ (cellEdges_ne_nil sq c (hC c hm).1 (fun f hf => ((hC c hm).2 f hf).1))
 
 
 end PorepyVerif.C20
